@@ -227,7 +227,9 @@ def run(ctx):
         if rng.random() < 0.4:
             # more states in one call than the graph's batch size, and not a multiple of it
             sts = [list(rng.choice(verts)) for _ in range(cfgd["batch_size"] * rng.randint(1, 3) + rng.randint(1, 2) if cfgd["batch_size"] <= 7 else rng.randint(5, 11))]
-        nb = G.flat_states(graph.get_neighbors_decoded(torch.tensor(sts, dtype=torch.int64)))
+        cont_ = G.pick_container(rng, [v for s_ in sts for v in s_], 0.0)          # a NumPy array or tensor of any integer type that holds the values
+        ctx.count("states_container_" + cont_)
+        nb = G.flat_states(graph.get_neighbors_decoded(G.in_container(cont_, sts) if cont_.startswith("torch") else torch.tensor(sts, dtype=torch.int64)))
         k = G.n_gens(gd)
         want = [list(G.act(gd, i, tuple(s))) for i in range(k) for s in sts]
         if nb != want:
@@ -244,7 +246,7 @@ def run(ctx):
                 ctx.violation("property_fails", "get_neighbors_decoded of the derived inverted copy differs from the inverse action",
                               {"oracle": "neighbors_inverted_copy", "graph": gd, "config": cfgd, "states": sts}, True)
         path = [rng.randrange(k) for _ in range(rng.randint(0, 6))]
-        ap = G.flat_states(graph.apply_path(torch.tensor(sts, dtype=torch.int64), path))
+        ap = G.flat_states(graph.apply_path(G.in_container(cont_, sts), path))
         want_p = [list(G.run_path(gd, s, path)) for s in sts]
         if ap != want_p:
             ctx.violation("property_fails", "apply_path is not the composition of the single actions",
